@@ -164,18 +164,25 @@ impl ObjectiveFunction for RealProblem {
 #[derive(Clone)]
 pub struct BitProblem {
     pub dim: usize,
+    /// the problem's name (the experiment runner names its log files after it)
+    pub label: &'static str,
     pub stats: Arc<Stats>,
 }
 impl BitProblem {
     pub fn new(dim: usize) -> Self {
-        Self { dim, stats: Arc::new(Stats::default()) }
+        Self { dim, label: "BitProblem", stats: Arc::new(Stats::default()) }
     }
 }
 impl Problem for BitProblem {
     type Encoding = Vec<bool>;
     type Objective = SingleObjective;
     fn name(&self) -> &str {
-        "BitProblem"
+        self.label
+    }
+}
+impl KnownOptimumProblem for BitProblem {
+    fn known_optimum(&self) -> SingleObjective {
+        0.0.try_into().unwrap()
     }
 }
 impl VectorProblem for BitProblem {
@@ -210,6 +217,8 @@ impl ObjectiveFunction for BitProblem {
 pub struct TspProblem {
     pub dim: usize,
     pub dist: Vec<Vec<f64>>,
+    /// the problem's name (the experiment runner names its log files after it)
+    pub label: &'static str,
     pub stats: Arc<Stats>,
 }
 impl TspProblem {
@@ -240,14 +249,20 @@ impl TspProblem {
                 };
             }
         }
-        Self { dim, dist, stats: Arc::new(Stats::default()) }
+        Self { dim, dist, label: "TspProblem", stats: Arc::new(Stats::default()) }
     }
 }
 impl Problem for TspProblem {
     type Encoding = Vec<usize>;
     type Objective = SingleObjective;
     fn name(&self) -> &str {
-        "TspProblem"
+        self.label
+    }
+}
+impl KnownOptimumProblem for TspProblem {
+    /// (a lower bound: no tour is shorter)
+    fn known_optimum(&self) -> SingleObjective {
+        0.0.try_into().unwrap()
     }
 }
 impl VectorProblem for TspProblem {
